@@ -246,6 +246,50 @@ spec('C17', run=run_c17, search=None,
      assumptions=['the harness itself links std in every configuration; only uom (and num-traits) are built without it'])
 
 
+# ------------------------------------------------------------------------------------------------
+# exact storage, temperature, complex
+
+TEMP = '(thermodynamic_temperature|temperature_interval)'
+
+
+def run_c08(ctx, tier=None, seed=None):
+    std_pipe(ctx, 'convx-exact', 'wide', 'convx', 'exact', tier=tier, seed=seed)
+
+
+spec('C08', run=run_c08, search=search_with(run_c08),
+     rule='BigRational (si, cgs, kgh), BigInt (si, kgh), BigUint, Rational64 (si, cgs), i32, i64 (si, cgs), u32, u64, isize × 82 units of 18 quantities '
+          '(incl. offset temperature scales) × values (0, ±1, extremes, seeded; unbounded for the big types); exact comparison of new/get/round-trip with the model, '
+          'round-trip identity oracle for rational storage; the error branch (division by a zero ratio, unsigned underflow → panic) is predicted and compared; '
+          'non-trivial = stored value differs from the input',
+     trusted_base=['the published coefficient/constant/powi of the storage type are inputs (num-rational from_f64 is not re-implemented)'],
+     assumptions=['fixed-width cases are judged only while every intermediate numerator/denominator stays below 2^(bits/2-1); others are counted as guarded'])
+
+
+def run_c09(ctx, tier=None, seed=None):
+    std_pipe(ctx, 'temp-exact', 'wide', 'convx', 'exact', tier=tier, seed=seed, only='^convx [^ ]+ [^ ]+ %s ' % TEMP)
+    std_pipe(ctx, 'temp-float-bases', 'fl', 'conv', 'others', env={'VERIF_LINES': 'conv'}, tier=tier, seed=seed, only='^conv [^ ]+ [^ ]+ %s ' % TEMP)
+    std_pipe(ctx, 'temp-float-all-units', 'fl,allsi', 'conv', 'si', env={'VERIF_LINES': 'conv'}, tier=tier, seed=seed, only='^conv [^ ]+ [^ ]+ %s ' % TEMP)
+    std_pipe(ctx, 'temp-arith', 'wide', 'ops', 'all', tier=tier, seed=seed, only='^bin [^ ]+ (tt|ti)[^ ]* ')
+
+
+spec('C09', run=run_c09, search=search_with(run_c09),
+     rule='all 24 temperature-point and 24 interval units × f32/f64 in SI base units, 6+5 units × 9 base-unit sets (kelvin, millikelvin, kilokelvin, °R bases) × '
+          'f32/f64/BigRational/BigInt/…; TT±TI, TT+=TI, TI+TT over same and mixed base sets; values incl. 0, −273.15, 273.15, 459.67, 32; non-trivial as for C03',
+     trusted_base=['powi results are taken from the implementation'],
+     assumptions=['float oracle bounds as for C03 (ulps at the larger of result and offset term)'])
+
+
+def run_c20(ctx, tier=None, seed=None):
+    std_pipe(ctx, 'complex', 'wide', 'convx', 'complex', tier=tier, seed=seed)
+
+
+spec('C20', run=run_c20, search=search_with(run_c20),
+     rule='Complex64 (si, cgs) and Complex32 (si, kgh) × 82 units × values with zero / non-zero imaginary part and negative real part; the implementation must match '
+          'the defect model bit-for-bit (norm supplied by the harness); the oracle is the property; non-trivial = non-zero imaginary part',
+     trusted_base=['Complex::norm (libm hypot) is a parameter supplied by the harness'],
+     assumptions=[])
+
+
 def replay(ctx, spec_, path):
     with open(path, encoding='utf-8') as f:
         body = json.load(f)
